@@ -123,6 +123,73 @@ Proof.
   repeat split; nia.
 Qed.
 
+(* indicator *)
+Definition ind (c : bool) (v : Z) : Z := if c then v else 0.
+
+(* ------------------------------------------------------------------ accounts and the bank *)
+Lemma acct_eqb_eq : forall a b, acct_eqb a b = true <-> a = b.
+Proof.
+  destruct a, b; simpl; split; intro H; try discriminate; try reflexivity;
+    try (apply Z.eqb_eq in H; subst; reflexivity); try (inversion H; apply Z.eqb_refl).
+Qed.
+Lemma acct_eqb_refl : forall a, acct_eqb a a = true.
+Proof. intro; apply acct_eqb_eq; reflexivity. Qed.
+Lemma acct_eqb_neq : forall a b, acct_eqb a b = false <-> a <> b.
+Proof.
+  intros; split; intro H.
+  - intro E; subst. rewrite acct_eqb_refl in H; discriminate.
+  - destruct (acct_eqb a b) eqn:E; [apply acct_eqb_eq in E; contradiction|reflexivity].
+Qed.
+Lemma acct_eqb_sym : forall a b, acct_eqb a b = acct_eqb b a.
+Proof.
+  intros. destruct (acct_eqb a b) eqn:E.
+  - apply acct_eqb_eq in E; subst. symmetry; apply acct_eqb_refl.
+  - symmetry. apply acct_eqb_neq. apply acct_eqb_neq in E. congruence.
+Qed.
+
+Definition at_ (a a0 : acct) (x d : Z) : bool := acct_eqb a a0 && (x =? d).
+
+Lemma bal_set_spec : forall b a0 d v a x, bal_set b a0 d v a x = if at_ a a0 x d then v else b a x.
+Proof. reflexivity. Qed.
+
+Lemma bank_move_spec : forall b from to d amt b',
+  bank_move b from to d amt = Ok b' ->
+  amt <= b from d /\
+  forall a x, b' a x = b a x + ind (at_ a to x d) amt - ind (at_ a from x d) amt.
+Proof.
+  unfold bank_move; intros. destruct (b from d <? amt) eqn:E; [discriminate|]. apply Z.ltb_ge in E.
+  inversion H; subst; clear H. split; [assumption|]. intros.
+  rewrite !bal_set_spec. unfold at_, ind.
+  destruct (x =? d) eqn:Ex; [apply Z.eqb_eq in Ex; subst x|rewrite !andb_false_r; lia].
+  rewrite !andb_true_r.
+  destruct (acct_eqb a to) eqn:Et; destruct (acct_eqb a from) eqn:Ef;
+    try (apply acct_eqb_eq in Et; subst a); try (apply acct_eqb_eq in Ef; subst);
+    rewrite ?acct_eqb_refl, ?Z.eqb_refl; cbn [andb]; try lia.
+  - rewrite Ef. cbn [andb]. lia.
+Qed.
+
+Lemma send_raw_spec : forall b from to d amt b',
+  send_raw b from to d amt = Ok b' ->
+  0 < amt /\ amt <= b from d /\
+  forall a x, b' a x = b a x + ind (at_ a to x d) amt - ind (at_ a from x d) amt.
+Proof.
+  unfold send_raw; intros. destruct (amt <=? 0) eqn:E; [discriminate|]. apply Z.leb_gt in E.
+  apply bank_move_spec in H. tauto.
+Qed.
+
+Lemma send_new_spec : forall b from to d amt b',
+  send_new b from to d amt = Ok b' ->
+  0 <= amt /\
+  forall a x, b' a x = b a x + ind (at_ a to x d) amt - ind (at_ a from x d) amt.
+Proof.
+  unfold send_new; intros. destruct (amt =? 0) eqn:E0.
+  - apply Z.eqb_eq in E0; subst. inversion H; subst. split; [lia|]. intros. unfold ind.
+    destruct (at_ a to x d), (at_ a from x d); lia.
+  - destruct (amt <? 0) eqn:E1; [discriminate|]. apply Z.ltb_ge in E1.
+    apply bank_move_spec in H. split; [lia|tauto].
+Qed.
+
+
 (* keep the 18-decimal arithmetic folded: [simpl] on 10^18 mantissas explodes *)
 Arguments calc_fee_in : simpl never.
 Arguments calc_fee_out : simpl never.
@@ -847,6 +914,182 @@ Proof.
     inversion H; subst. eapply split_out_loop_preserves; eauto.
 Qed.
 End Principle.
+
+(* ------------------------------------------------------------------ the reported amounts are the amounts moved *)
+Lemma trader_at : forall n a x d, at_ (Trader n) a x d = match a with Trader k => (n =? k) && (x =? d) | _ => false end.
+Proof. intros. unfold at_. destruct a; reflexivity. Qed.
+
+(* one exact-in hop, seen from the trader's balances *)
+Lemma pm_in_sender_bal : forall s n pid dIn amt dOut m s' out fee,
+  pm_swap_exact_in P s (Trader n) pid dIn amt dOut m = Ok (s', (out, fee)) ->
+  dIn <> dOut /\ exists paid, 0 < paid /\
+  forall x, bal s' (Trader n) x = bal s (Trader n) x - ind (x =? dIn) paid + ind (x =? dOut) out.
+Proof.
+  intros s n pid dIn amt dOut m s' out fee H.
+  apply pm_in_inv in H. destruct H as (p & s1 & after & _ & _ & C & Md).
+  apply module_in_inv in Md. destruct Md as (p' & tin & _ & _ & _ & Hne & St).
+  apply settle_inv in St. destruct St as (_ & _ & _ & b1 & Sa & Sb).
+  apply send_raw_spec in Sa. destruct Sa as (Ptin & _ & Sa).
+  apply send_raw_spec in Sb. destruct Sb as (_ & _ & Sb).
+  pose proof (charge_inv _ _ _ _ _ _ _ _ _ C) as (_ & _ & _ & CW & CN).
+  assert (Fee : 0 <= fee /\ forall x, bal s1 (Trader n) x = bal s (Trader n) x - ind (x =? dIn) fee).
+  { destruct (whitelisted s (Trader n)) eqn:W.
+    - destruct (CW eq_refl) as (E & _ & E3). subst. split; [lia|]. intros. unfold ind. destruct (x =? dIn); lia.
+    - destruct (CN eq_refl) as (_ & S). apply send_new_spec in S. destruct S as (Pz & S). split; [assumption|].
+      intros. rewrite S, !trader_at. rewrite Z.eqb_refl. cbn [andb]. unfold ind. destruct (x =? dIn); lia. }
+  destruct Fee as (Pf & S1). split; [assumption|]. exists (fee + tin). split; [lia|].
+  intros. rewrite Sb, Sa, S1, !trader_at. rewrite Z.eqb_refl. cbn [andb]. unfold ind.
+  destruct (x =? dIn), (x =? dOut); lia.
+Qed.
+
+Lemma last_denom_cons : forall h h2 rest, last_denom (h :: h2 :: rest) = last_denom (h2 :: rest).
+Proof. reflexivity. Qed.
+
+Lemma last_denom_in : forall route, route <> [] -> In (last_denom route) (map snd route).
+Proof.
+  induction route as [|h rest IH]; intros; [congruence|]. destruct rest as [|h2 rest'].
+  - left. reflexivity.
+  - rewrite last_denom_cons. right. apply IH. discriminate.
+Qed.
+
+Lemma loop_in_delivers : forall route s n dIn amt minOut s' out,
+  NoDup (dIn :: map snd route) ->
+  route_in_loop P s (Trader n) route dIn amt minOut = Ok (s', out) ->
+  (forall x, ~ In x (dIn :: map snd route) -> bal s' (Trader n) x = bal s (Trader n) x) /\
+  bal s' (Trader n) (last_denom route) = bal s (Trader n) (last_denom route) + out.
+Proof.
+  induction route as [|[pid dOut] rest IH]; intros s n dIn amt minOut s' out ND H; cbn [route_in_loop] in H; [discriminate|].
+  destruct (pm_swap_exact_in P s (Trader n) pid dIn amt dOut (match rest with [] => minOut | _ :: _ => 1 end)) as [[s1 [o f]]|] eqn:E; [|discriminate].
+  apply pm_in_sender_bal in E. destruct E as (Hne & paid & _ & S1).
+  cbn [map snd] in ND. inversion ND as [|? ? N1 ND1]; subst.
+  destruct rest as [|h2 rest'].
+  - inversion H; subst. split.
+    + intros x Hx. rewrite S1. cbn [map snd In] in Hx.
+      assert (X1 : x =? dIn = false) by (apply Z.eqb_neq; intro; subst; tauto).
+      assert (X2 : x =? dOut = false) by (apply Z.eqb_neq; intro; subst; tauto).
+      rewrite X1, X2. unfold ind. lia.
+    + unfold last_denom; cbn [last snd]. rewrite S1. rewrite Z.eqb_refl.
+      assert (X1 : dOut =? dIn = false) by (apply Z.eqb_neq; congruence). rewrite X1. unfold ind. lia.
+  - apply IH in H; [|exact ND1]. destruct H as (F2 & D2).
+    pose proof (last_denom_in (h2 :: rest') ltac:(discriminate)) as LI.
+    inversion ND1 as [|? ? N2 ND2]; subst.
+    split.
+    + intros x Hx. rewrite F2.
+      * rewrite S1.
+        assert (X1 : x =? dIn = false) by (apply Z.eqb_neq; intro; subst; apply Hx; left; reflexivity).
+        assert (X2 : x =? dOut = false) by (apply Z.eqb_neq; intro; subst; apply Hx; right; left; reflexivity).
+        rewrite X1, X2. unfold ind. lia.
+      * intro Hin. apply Hx. right. exact Hin.
+    + rewrite last_denom_cons, D2, S1.
+      assert (X1 : last_denom (h2 :: rest') =? dIn = false).
+      { apply Z.eqb_neq. intro E. apply N1. rewrite <- E. right. exact LI. }
+      assert (X2 : last_denom (h2 :: rest') =? dOut = false).
+      { apply Z.eqb_neq. intro E. apply N2. rewrite <- E. exact LI. }
+      rewrite X1, X2. unfold ind. lia.
+Qed.
+
+(* a routed exact-in swap over pairwise different denoms delivers to the trader exactly the amount it reports *)
+Theorem route_in_delivers : forall route s n dIn amt minOut s' out,
+  NoDup (dIn :: map snd route) ->
+  route_exact_in P s (Trader n) route dIn amt minOut = Ok (s', out) ->
+  bal s' (Trader n) (last_denom route) = bal s (Trader n) (last_denom route) + out.
+Proof. intros. apply route_in_ok in H0. destruct H0 as [H0 _]. eapply loop_in_delivers; eauto. Qed.
+
+Lemma calc_fee_out_fee : forall amt f a fee, calc_fee_out amt f = Ok (a, fee) -> fee = a - amt.
+Proof.
+  unfold calc_fee_out; intros. destruct (P18 - f =? 0); [discriminate|].
+  remember (d_truncate_int (d_ceil (d_quo (d_from_int amt) (P18 - f)))) as v. inversion H. reflexivity.
+Qed.
+
+(* one exact-out hop, seen from the trader's balances: it pays the reported total, it receives the out-coin *)
+Lemma out_hop_sender_bal : forall first s n pid dIn maxIn dOut amtOut s' t,
+  out_hop first s (Trader n) pid dIn maxIn dOut amtOut = Ok (s', t) ->
+  dIn <> dOut /\ exists got, 0 < got /\
+  forall x, bal s' (Trader n) x = bal s (Trader n) x - ind (x =? dIn) t + ind (x =? dOut) got.
+Proof.
+  intros first s n pid dIn maxIn dOut amtOut s' t H. unfold out_hop in H.
+  destruct (get_pool P (pools s) pid) as [p|]; [|discriminate].
+  destruct (negb (is_active P p)); [discriminate|].
+  destruct (module_swap_exact_out P s (Trader n) pid p dIn maxIn dOut amtOut (spread_of P p)) as [[s1 cur]|] eqn:Md; [|discriminate].
+  destruct (charge_taker_fee P s1 (Trader n) dIn cur dOut false) as [[s2 [after fee]]|] eqn:C; [|discriminate].
+  destruct (first && (maxIn <? after)); [discriminate|]. inversion H; subst s2 after; clear H.
+  apply module_out_inv in Md. destruct Md as (p' & tout & _ & _ & _ & Hne & St).
+  apply settle_inv in St. destruct St as (_ & _ & _ & b1 & Sa & Sb).
+  apply send_raw_spec in Sa. destruct Sa as (_ & _ & Sa).
+  apply send_raw_spec in Sb. destruct Sb as (Pout & _ & Sb).
+  pose proof (charge_inv _ _ _ _ _ _ _ _ _ C) as (_ & _ & _ & CW & CN).
+  assert (Fee : forall x, bal s' (Trader n) x = bal s1 (Trader n) x - ind (x =? dIn) (t - cur)).
+  { destruct (whitelisted s1 (Trader n)) eqn:W.
+    - destruct (CW eq_refl) as (E & E2 & _). subst. intros. unfold ind. destruct (x =? dIn); lia.
+    - destruct (CN eq_refl) as (CF & S). apply calc_fee_out_fee in CF. subst fee.
+      apply send_new_spec in S. destruct S as (_ & S).
+      intros. rewrite S, !trader_at. rewrite Z.eqb_refl. cbn [andb]. unfold ind. destruct (x =? dIn); lia. }
+  split; [assumption|]. exists tout. split; [assumption|].
+  intros. rewrite Fee, Sb, Sa, !trader_at. rewrite Z.eqb_refl. cbn [andb]. unfold ind.
+  destruct (x =? dIn), (x =? dOut); lia.
+Qed.
+
+Lemma expected_ins_bal : forall route s dOutF amtF, bal (fst (expected_ins P s route dOutF amtF)) = bal s.
+Proof.
+  induction route as [|[pid dIn] rest IH]; intros; cbn [expected_ins]; [reflexivity|].
+  specialize (IH s dOutF amtF).
+  destruct (expected_ins P s rest dOutF amtF) as [s1 [ins_rest|e]]; cbn [fst] in *; [|assumption].
+  destruct (next_out rest ins_rest dOutF amtF) as [dOut amtOut].
+  destruct (get_pool P (pools s1) pid) as [p|]; [|assumption].
+  destruct (calc_in P p dOut amtOut dIn (spread_of P p)) as [p' [tin|e]]; [|assumption].
+  destruct (calc_fee_out tin (taker_fee s1 dIn dOut)) as [[after fee]|]; assumption.
+Qed.
+
+Lemma next_out_in : forall rest ins_rest dOutF amtF,
+  In (fst (next_out rest ins_rest dOutF amtF)) (map snd rest ++ [dOutF]).
+Proof.
+  intros. destruct rest as [|[p d] r]; [left; reflexivity|]. destruct ins_rest as [|a t].
+  - cbn [next_out fst]. apply in_or_app. right. left. reflexivity.
+  - left. reflexivity.
+Qed.
+
+Lemma loop_out_charges : forall route first s n ins dOutF amtF s' t,
+  NoDup (map snd route ++ [dOutF]) ->
+  route_out_loop P first s (Trader n) route ins dOutF amtF = Ok (s', t) ->
+  (forall x, ~ In x (map snd route ++ [dOutF]) -> bal s' (Trader n) x = bal s (Trader n) x) /\
+  bal s' (Trader n) (first_denom route) = bal s (Trader n) (first_denom route) - t.
+Proof.
+  induction route as [|[pid dIn] rest IH]; intros first s n ins dOutF amtF s' t ND H; [destruct ins; discriminate|].
+  destruct ins as [|m ins_rest]; [discriminate|].
+  rewrite route_out_loop_step in H.
+  pose proof (next_out_in rest ins_rest dOutF amtF) as NI.
+  destruct (out_hop first s (Trader n) pid dIn m (fst (next_out rest ins_rest dOutF amtF)) (snd (next_out rest ins_rest dOutF amtF))) as [[s2 after]|] eqn:E; [|discriminate].
+  apply out_hop_sender_bal in E. destruct E as (Hne & got & _ & S1).
+  set (dO := fst (next_out rest ins_rest dOutF amtF)) in *.
+  cbn [map snd app] in ND. inversion ND as [|? ? N1 ND1]; subst.
+  assert (HopFrame : forall x, x <> dIn -> ~ In x (map snd rest ++ [dOutF]) -> bal s2 (Trader n) x = bal s (Trader n) x).
+  { intros x X1 X2. rewrite S1. assert (A : x =? dIn = false) by (apply Z.eqb_neq; assumption).
+    assert (B : x =? dO = false) by (apply Z.eqb_neq; intro; subst x; contradiction). rewrite A, B. unfold ind. lia. }
+  assert (HopFirst : bal s2 (Trader n) dIn = bal s (Trader n) dIn - after).
+  { rewrite S1. rewrite Z.eqb_refl. assert (B : dIn =? dO = false) by (apply Z.eqb_neq; assumption). rewrite B. unfold ind. lia. }
+  destruct rest as [|h2 rest'].
+  - inversion H; subst. split.
+    + intros x Hx. apply HopFrame; [intro; subst; apply Hx; left; reflexivity|intro Hi; apply Hx; right; exact Hi].
+    + exact HopFirst.
+  - destruct (route_out_loop P false s2 (Trader n) (h2 :: rest') ins_rest dOutF amtF) as [[s3 t']|] eqn:R; [|discriminate].
+    inversion H; subst s3 after; clear H.
+    apply IH in R; [|exact ND1]. destruct R as (F2 & _).
+    split.
+    + intros x Hx. rewrite F2 by (intro Hi; apply Hx; right; exact Hi).
+      apply HopFrame; [intro; subst; apply Hx; left; reflexivity|intro Hi; apply Hx; right; exact Hi].
+    + cbn [first_denom snd]. rewrite F2 by exact N1. exact HopFirst.
+Qed.
+
+(* a routed exact-out swap over pairwise different denoms takes from the trader exactly the amount it reports *)
+Theorem route_out_charges : forall route s n maxIn dOutF amtF s' t,
+  NoDup (map snd route ++ [dOutF]) ->
+  route_exact_out P s (Trader n) route maxIn dOutF amtF = Ok (s', t) ->
+  bal s' (Trader n) (first_denom route) = bal s (Trader n) (first_denom route) - t.
+Proof.
+  intros. apply route_out_ok in H0. destruct H0 as (s1 & a0 & t0 & _ & E & LP & _).
+  pose proof (expected_ins_bal route s dOutF amtF) as B. rewrite E in B. cbn [fst] in B.
+  apply loop_out_charges in LP; [|assumption]. destruct LP as (_ & D). rewrite B in D. exact D.
+Qed.
 
 (* ================================================================== with the two pool laws *)
 Hypothesis L : PoolLaws P.
